@@ -15,6 +15,14 @@ RULE = (
     "{slim mode on slim arrays, mask-in-fit mode on native-stored arrays with each of 4 garbage assignments in masked "
     "pixels}; inversion cases = (interior mask of the 5x5 frame / 3x3 PSF, PSF kind, sub-size, ordered list of linear "
     "objects with regularization flags, solver) each run in both formalisms x both fit modes x sky {0, 0.3, -0.3}; "
+    "second-fit histories (inside one case, on the SAME dataset object): after a fit has been evaluated completely, (a) its "
+    "four maps are held, (b) a fit class supplying its own (scaled) noise map and another model is evaluated completely, (c) "
+    "a fit on another mask of the same shape is evaluated, the held maps must still hold fit 1's values and share no memory "
+    "with the later fits' maps, (d) one noise value of the dataset is edited in place through the structure's __setitem__ "
+    "and a new fit on the same dataset must follow the edited noise map; plain cases run the history in both modes for "
+    "both menus at one (rotating) sky level, inversion cases once per formalism (slim for mapping, mask-in-fit for "
+    "w-tilde; steps b+c or d rotating); tiny-coefficient lists = a mapper with Constant(coefficient 3e-5 / 5e-5) alone and "
+    "next to normally regularized / unregularized objects on every 8th mask (quick) / every mask (thorough); "
     "non-trivial = plain: the mask has masked pixels; inversion: the list has >= 2 objects or is partially unregularized"
 )
 ASSUMPTIONS = [
@@ -34,8 +42,10 @@ BOUNDS = {
     "quick": "plain: all 3187 masks with <= 9 cells (3x3, 2x4, 4x2, 1x9 ... 1x1) x 2 value menus x 2 sky levels x "
              "(1 slim + 4 garbage assignments); inversion: all 502 interior masks (>=2 pixels) of the 5x5 frame/3x3 PSF, "
              "each with a rotating third of the 54 ordered object lists (length 1..2 over {rectA,rectB,del,func,funcS} "
-             "with regularization flags, plus a length-3 menu), PSF kind/sub-size/solver rotating, both formalisms",
-    "thorough": "plain: all 35943 masks with <= 12 cells; inversion: all 502 interior masks x all 54 lists x both PSF kinds",
+             "with regularization flags, plus a length-3 menu), PSF kind/sub-size/solver rotating, both formalisms; 6 tiny-"
+             "coefficient lists on every 8th interior mask; second-fit history in every case (see rule)",
+    "thorough": "plain: all 35943 masks with <= 12 cells; inversion: all 502 interior masks x all 54 lists x both PSF kinds, "
+                "tiny-coefficient lists on every interior mask",
 }
 
 GARBAGE = [0.0, 7.0, -3.0, 1.0e6]
@@ -131,6 +141,24 @@ def obj_lists():
     return out
 
 
+def tiny_lists():
+    """
+    Lists whose mapper is regularized with a tiny coefficient (flag = the coefficient): the entries of H are ~1e-9, i.e.
+    BELOW the 1e-8 ridge on its diagonal, alone and next to normally regularized / unregularized objects.
+    """
+    return [
+        [["rectA"], [3e-5]], [["del"], [3e-5]], [["rectA", "rectB"], [3e-5, True]], [["rectB", "rectA"], [True, 5e-5]],
+        [["func", "rectA"], [False, 3e-5]], [["rectA", "funcS", "del"], [5e-5, False, 3e-5]],
+    ]
+
+
+def reg_flag(r):
+    """regularization flag of an object list entry -> (regularized?, Constant coefficient)."""
+    if isinstance(r, bool):
+        return r, 1.0
+    return True, float(r)
+
+
 def cases(tier, seed):
     ncell = 9 if tier == "quick" else 12
     for (h, w, bits) in dom.all_mask_cases(ncell):
@@ -142,6 +170,12 @@ def cases(tier, seed):
         if bin(bits).count("1") >= 2:
             fam.append(bits)
     fam.sort(key=lambda b: (bin(b).count("1"), b))
+    # tiny-coefficient lists first (few and cheap), then the main sweep
+    for i, bits in enumerate(fam):
+        if tier == "quick" and i % 8 != 3:
+            continue
+        for k, ol in enumerate(tiny_lists()):
+            yield ["inv", list(frame), list(ks), bits, fix_inv.PSF_KINDS[(k + i) % 2], 1 + (k + i // 2) % 2, ol, False, (k + i) % 2 == 0, seed]
     for i, bits in enumerate(fam):
         for k, ol in enumerate(lists):
             if tier == "quick":
@@ -185,6 +219,27 @@ def fit_cls():
 
         _FIT = VerifFitImaging
     return _FIT
+
+
+_FIT_OWN = None
+
+
+def fit_own_noise_cls():
+    """A fit that supplies its OWN noise map (e.g. a scaled noise map), the way MockFitImaging / downstream fits override it."""
+    global _FIT_OWN
+    if _FIT_OWN is None:
+
+        class VerifFitImagingOwnNoise(fit_cls()):
+            def __init__(self, dataset, model_data, noise_map, **kwargs):
+                super().__init__(dataset, model_data, **kwargs)
+                self._noise_map = noise_map
+
+            @property
+            def noise_map(self):
+                return self._noise_map
+
+        _FIT_OWN = VerifFitImagingOwnNoise
+    return _FIT_OWN
 
 
 # ----------------------------------------------------------------------------- value menus
@@ -246,8 +301,8 @@ class Acc:
     class; a quantity whose observed value changes with the garbage in masked pixels is a `masked-garbage-leaks:` class.
     """
 
-    def __init__(self, v, mode, tag, reported=None):
-        self.v, self.mode, self.tag = v, mode, tag
+    def __init__(self, v, mode, tag, reported=None, suffix=None):
+        self.v, self.mode, self.tag, self.suffix = v, mode, tag, suffix
         self.rec = {}
         self.order = []
         self.reported = set(reported or ())
@@ -280,7 +335,9 @@ class Acc:
             if self.mode == "mask-in-fit" and len(recs) > 1:
                 o0 = recs[0][2]
                 varies = any(not _close(r[2], o0) for r in recs[1:])
-            if varies:
+            if self.suffix:
+                cls = "%s:%s" % (q, self.suffix)  # history classes: the quantity and the history, not the mode
+            elif varies:
                 cls = "masked-garbage-leaks:%s" % q
             elif suffixed:
                 cls = "%s[%s]" % (q, self.mode)
@@ -327,11 +384,13 @@ def _map(x, mode, shape, u):
     return a[u], a[~u]
 
 
-def observe_fit(acc, fit, ds, mode, u, d_eff, d_raw, model, noise, variant, inv_ref=None):
+def observe_fit(acc, fit, ds, mode, u, d_eff, d_raw, model, noise, variant, inv_ref=None, ds_noise=None):
     """
     d_eff, d_raw, model, noise: reference values on unmasked pixels (slim order); d_eff = data after the sky offset.
     inv_ref: None or dict(reg_term, ld_fh, ld_h) reference values and the inversion's observed terms.
+    ds_noise: the noise values the DATASET holds, when the fit supplies its own noise map (default: the fit's).
     """
+    ds_noise = noise if ds_noise is None else ds_noise
     from autoarray.fit import fit_util
 
     shape = u.shape
@@ -392,7 +451,7 @@ def observe_fit(acc, fit, ds, mode, u, d_eff, d_raw, model, noise, variant, inv_
 
         # signal to noise, negatives clipped to zero (no mask-aware variant exists: unmasked pixels only)
         add_map("signal_to_noise_map", fit.signal_to_noise_map, np.maximum(d_eff / noise, 0.0), np.maximum(d_up / noise, 0.0), masked_zero=False)
-        add_map("dataset.signal_to_noise_map", ds.signal_to_noise_map, np.maximum(d_raw / noise, 0.0), masked_zero=False)
+        add_map("dataset.signal_to_noise_map", ds.signal_to_noise_map, np.maximum(d_raw / ds_noise, 0.0), masked_zero=False)
 
         llr = fit.log_likelihood_with_regularization
         lev = fit.log_evidence
@@ -425,8 +484,106 @@ def native_with_garbage(aa, mask, m, vals_native_clean, g):
     return a
 
 
-def run_fits(v, aa, mask, m, d_nat, model_nat, noise_nat, tag, inversion=None, inv_ref=None, reported=None):
-    """All modes x sky levels x garbage assignments for one (data, model, noise) triple given on the native frame."""
+HELD_MAPS = ("residual_map", "normalized_residual_map", "chi_squared_map", "residual_flux_fraction_map")
+SECOND = "second-fit-same-dataset"
+EDITED_NOISE = 50.0
+
+
+def _raw(x):
+    """The ndarray a structure wraps."""
+    return np.asarray(getattr(x, "array", x))
+
+
+def other_mask(m):
+    """A different mask of the same shape with >= 1 unmasked pixel (None for a single cell)."""
+    if m.size < 2:
+        return None
+    m3 = np.roll(m.ravel(), 1).reshape(m.shape)
+    if np.array_equal(m3, m):  # only for the all-unmasked mask
+        m3 = m.copy()
+        m3.ravel()[0] = not m3.ravel()[0]
+    return m3
+
+
+def _in_mode(aa, mask, m, vals_nat, mode, g):
+    if mode == "slim":
+        return aa.Array2D(values=vals_nat[~m].copy(), mask=mask)
+    return native_with_garbage(aa, mask, m, np.where(m, 0.0, vals_nat), g)
+
+
+def check_held(v, mode, held, snap, later_fit, what):
+    """Maps handed out by an earlier fit must keep their values and must not share memory with a later fit's maps."""
+    for q in HELD_MAPS:
+        later = _raw(getattr(later_fit, q))
+        now = _raw(held[q])
+        same = now.shape == snap[q].shape and np.array_equal(now, snap[q], equal_nan=True)
+        shares = bool(np.shares_memory(now, later))
+        v.ok(same and not shares, "%s[%s]:held-map-changed-by-later-fit" % (q, mode),
+             lambda: "%s of fit 1, held while %s was evaluated: values unchanged %s (max change %s), shares memory with the later fit's %s: %s"
+             % (q, what, same, dom.maxdiff(now, snap[q]) if now.shape == snap[q].shape else "shape", q, shares))
+
+
+def history(v, aa, mode, mask, m, ds, fit1, dm, d_eff, d_raw_nat, model_nat, noise_nat, tag, steps, salt,
+            inversion=None, inv_ref=None, reported=None):
+    """
+    Further fits after `fit1` (already evaluated completely) on the SAME dataset object `ds`; see RULE. `steps` is a subset
+    of ("own", "edit"); d_raw_nat / model_nat / noise_nat are given on the whole native frame (noise > 0 everywhere).
+    """
+    u = ~m
+    mif = mode == "mask-in-fit"
+    Fit, FitOwn = fit_cls(), fit_own_noise_cls()
+    d_raw, model_u, noise_u = d_raw_nat[u], model_nat[u], noise_nat[u]
+    rep = set()
+    if "own" in steps:
+        held, snap = {}, {}
+        with np.errstate(all="ignore"):
+            for q in HELD_MAPS:  # snapshot immediately after each read
+                held[q] = getattr(fit1, q)
+                snap[q] = np.array(_raw(held[q]), dtype=float, copy=True)
+        # a fit class that supplies its own (scaled) noise map, with another model, on the same dataset
+        model2 = 0.5 * model_nat + 0.25
+        noise2 = 1.7 * noise_nat + 0.1
+        g = garbage_triplet(salt + 1)
+        fit2 = FitOwn(ds, _in_mode(aa, mask, m, model2, mode, g[1]), _in_mode(aa, mask, m, noise2, mode, g[2]),
+                      inversion=inversion, use_mask_in_fit=mif, dataset_model=dm)
+        acc = Acc(v, mode, "%s mode=%s second fit with its own noise map on the same dataset" % (tag, mode), reported, suffix=SECOND)
+        observe_fit(acc, fit2, ds, mode, u, d_eff, d_raw, model2[u], noise2[u], "own-noise-map", inv_ref, ds_noise=noise_u)
+        rep |= acc.finish()
+        with np.errstate(all="ignore"):
+            check_held(v, mode, held, snap, fit2, "a second fit (other model and noise map, same dataset)")
+            m3 = other_mask(m)
+            if m3 is not None:
+                mask3 = aa.Mask2D(mask=m3.copy(), pixel_scales=mask.pixel_scales)
+                g = garbage_triplet(salt + 2)
+                ds3 = aa.Imaging(data=_in_mode(aa, mask3, m3, d_raw_nat + 0.5, mode, g[0]), noise_map=_in_mode(aa, mask3, m3, noise_nat, mode, g[2]))
+                fit3 = Fit(ds3, _in_mode(aa, mask3, m3, 1.0 - model_nat, mode, g[1]), use_mask_in_fit=mif, dataset_model=dm)
+                fit3.figure_of_merit
+                check_held(v, mode, held, snap, fit3, "a fit on another mask of the same shape")
+    if "edit" in steps:
+        # one noise value of the dataset is edited in place through the structure's __setitem__
+        kk = salt % int(u.sum())
+        if mif:
+            y, x = np.argwhere(u)[kk]
+            ds.noise_map[int(y), int(x)] = EDITED_NOISE
+        else:
+            ds.noise_map[kk] = EDITED_NOISE
+        noise_e = noise_u.copy()
+        noise_e[kk] = EDITED_NOISE
+        got, _ = _map(ds.noise_map, mode, u.shape, u)
+        if got is None or not np.array_equal(got, noise_e):
+            raise RuntimeError("harness: in-place edit of the dataset's noise map did not take effect")
+        fit4 = Fit(ds, fit1.model_data, inversion=inversion, use_mask_in_fit=mif, dataset_model=dm)
+        acc = Acc(v, mode, "%s mode=%s second fit after dataset.noise_map[k] = %s on the same dataset" % (tag, mode, EDITED_NOISE), reported, suffix=SECOND)
+        observe_fit(acc, fit4, ds, mode, u, d_eff, d_raw, model_u, noise_e, "noise-map-edited-in-place", inv_ref)
+        rep |= acc.finish()
+    return rep
+
+
+def run_fits(v, aa, mask, m, d_nat, model_nat, noise_nat, tag, inversion=None, inv_ref=None, reported=None, hist=None):
+    """
+    All modes x sky levels x garbage assignments for one (data, model, noise) triple given on the native frame.
+    hist: None or {"sky": level at which the second-fit history runs, "salt": int, "slim": steps, "mask-in-fit": steps}.
+    """
     u = ~m
     Fit = fit_cls()
     rep_all = set()
@@ -440,6 +597,9 @@ def run_fits(v, aa, mask, m, d_nat, model_nat, noise_nat, tag, inversion=None, i
         fit = Fit(ds, aa.Array2D(values=model_nat[u].copy(), mask=mask), inversion=inversion, use_mask_in_fit=False, dataset_model=dm)
         observe_fit(acc, fit, ds, "slim", u, d_eff, d_raw, model_nat[u], noise_nat[u], 0, inv_ref)
         rep_all |= acc.finish()
+        if hist and sky == hist["sky"] and hist.get("slim"):
+            rep_all |= history(v, aa, "slim", mask, m, ds, fit, dm, d_eff, d_nat + sky, model_nat, noise_nat, "%s sky=%s" % (tag, sky),
+                               hist["slim"], hist["salt"], inversion, inv_ref, reported)
         # ---- mask-in-fit mode, native-stored arrays, garbage in masked pixels
         acc = Acc(v, "mask-in-fit", "%s sky=%s mode=mask-in-fit" % (tag, sky), reported)
         clean_d = np.where(m, 0.0, d_nat + sky)
@@ -450,7 +610,12 @@ def run_fits(v, aa, mask, m, d_nat, model_nat, noise_nat, tag, inversion=None, i
             ds = aa.Imaging(data=native_with_garbage(aa, mask, m, clean_d, gd), noise_map=native_with_garbage(aa, mask, m, clean_s, gs))
             fit = Fit(ds, native_with_garbage(aa, mask, m, clean_m, gm), inversion=inversion, use_mask_in_fit=True, dataset_model=dm)
             observe_fit(acc, fit, ds, "mask-in-fit", u, d_eff, d_raw, model_nat[u], noise_nat[u], "garbage(d,m,n)=%s" % (garbage_triplet(j),), inv_ref)
+            if j == 0:
+                ds0, fit0 = ds, fit
         rep_all |= acc.finish()
+        if hist and sky == hist["sky"] and hist.get("mask-in-fit"):
+            rep_all |= history(v, aa, "mask-in-fit", mask, m, ds0, fit0, dm, d_eff, d_nat + sky, model_nat, noise_nat, "%s sky=%s" % (tag, sky),
+                               hist["mask-in-fit"], hist["salt"], inversion, inv_ref, reported)
     return rep_all
 
 
@@ -484,7 +649,8 @@ def run_plain(aa, v, case):
             flags.add("snr-clipped")
         if (d[u] == mod[u]).any():
             flags.add("zero-residual")
-        run_fits(v, aa, mask, m, d, mod, s, "menu=%s" % menu)
+        hist = {"sky": SKIES[(bits + h) % 3], "salt": bits + w, "slim": ("own", "edit"), "mask-in-fit": ("own", "edit")}
+        run_fits(v, aa, mask, m, d, mod, s, "menu=%s" % menu, hist=hist)
     v.outcome = "plain:n%d:%s" % (int(u.sum()), "+".join(sorted(flags)))
 
 
@@ -496,10 +662,15 @@ def run_inv(aa, v, case):
     mask = fx["mask"]
     partial = any(regs) and not all(regs)
     v.nontrivial = len(kinds) >= 2 or partial
-    regtag = "".join("R" if r else "u" for r in regs)
+    tiny = any(not isinstance(r, bool) for r in regs)
+    regtag = "".join(("R" if isinstance(r, bool) else "t") if r else "u" for r in regs)
     diag = 1e-3
+    npix = bin(bits).count("1")
 
-    objs0 = [fix_inv.make_obj(fx, k, reg=r, seed=seed) for k, r in zip(kinds, regs)]
+    def make_objs(f):
+        return [fix_inv.make_obj(f, k, reg=reg_flag(r)[0], seed=seed, coefficient=reg_flag(r)[1]) for k, r in zip(kinds, regs)]
+
+    objs0 = make_objs(fx)
     B, widths = fix_inv.reference_B(fx, objs0)
     _, F_ref = fix_inv.normal_equations(B, fx["data"], fx["noise"])
     reg_idx, unreg_idx = [], []
@@ -512,7 +683,7 @@ def run_inv(aa, v, case):
     outcomes = []
 
     for wt in (False, True):
-        objs = [fix_inv.make_obj(fx, k, reg=r, seed=seed) for k, r in zip(kinds, regs)]  # fresh graph per inversion
+        objs = make_objs(fx)  # fresh graph per inversion
         fxi = fix_inv.make_dataset(frame, ks, bits, psf_kind=psf_kind, seed=seed, sub=sub)
         st = fix_inv.settings(aa, wt, positive=positive, diag=diag)
         inv = aa.Inversion(dataset=fxi["ds"], linear_obj_list=objs, settings=st)
@@ -601,6 +772,9 @@ def run_inv(aa, v, case):
         d_nat[u] = fx["data"]
         s_nat = np.ones(m.shape)
         s_nat[u] = fx["noise"]
-        run_fits(v, aa, mask, m, d_nat, model_nat, s_nat, tag, inversion=inv, inv_ref=inv_ref, reported=reported)
+        # second-fit history on the same dataset: once per formalism (slim for mapping, mask-in-fit for w-tilde), steps rotating
+        step = ("own",) if (npix + len(kinds) + int(wt)) % 2 == 0 else ("edit",)
+        hist = {"sky": SKIES[(npix + int(wt)) % 3], "salt": bits + len(kinds), ("mask-in-fit" if wt else "slim"): step}
+        run_fits(v, aa, mask, m, d_nat, model_nat, s_nat, tag, inversion=inv, inv_ref=inv_ref, reported=reported, hist=hist)
         outcomes.append("%s:%s" % (fam, "reg" if all(regs) else ("partial" if partial else "unreg")))
-    v.outcome = "inv:L%d:%s:%s" % (len(kinds), "pos" if positive else "pn", "|".join(outcomes))
+    v.outcome = "inv:L%d:%s:%s%s" % (len(kinds), "pos" if positive else "pn", "|".join(outcomes), ":tiny-coefficient" if tiny else "")
